@@ -534,7 +534,8 @@ fn check_flat(orc: &mut Oracle, def: &mut Deferred, site: &str, kind: Kind, prog
     let mut k = 0usize; // index into out
     let mut cur = point(0.0, 0.0);
     let mut cur_attr: Vec<f32> = vec![];
-    // what `prev_attributes` holds according to the code as it is (classification only)
+    // what `prev_attributes` held before lyon commit babe4617 (begin did not record the
+    // attributes): used only to give a regression of that repaired defect its narrow class
     let n = prog.iter().find_map(|o| match o { Op::B(_, a) => Some(a.len()), _ => None }).unwrap_or(0);
     let mut stale: Vec<f32> = vec![0.0; n];
     let mut after_begin = false;
@@ -1090,7 +1091,7 @@ fn main() {
     // witnesses
     let p = |x: f32, y: f32| point(x, y);
     let wit: Vec<(&str, usize, f32, Vec<Op>)> = vec![
-        // the finding's witness: begin[10] Q … [20]
+        // the witness of the (repaired, babe4617) finding: begin[10] Q … [20]
         ("first-curve-after-begin quad", 1, 0.01, vec![Op::B(p(0., 0.), vec![10.]), Op::Q(p(5., 10.), p(10., 0.), vec![20.]), Op::E(false)]),
         ("first-curve-after-begin cubic", 2, 0.05, vec![Op::B(p(0., 0.), vec![10., -4.]), Op::C(p(0., 10.), p(10., 10.), p(10., 0.), vec![20., 4.]), Op::E(true)]),
         // stale attributes from the previous sub-path
